@@ -14,7 +14,7 @@
     [HT] is the honest token (OpenZeppelin ledger with minter/burner role). *)
 From Coq Require Import ZArith List.
 From stdpp Require Import gmap.
-From HV Require Import Erc20.PegModel Erc20.PegProofs.
+From HV Require Import Erc20.PegModel Erc20.PegProofs Erc20.MultiProofs.
 Import ListNotations.
 Local Open Scope Z_scope.
 
@@ -330,3 +330,206 @@ Theorem C10_selfdestructed_pair_dropped :
   r = OK /\ reg s = true /\ reg s' = false /\ supply s' = supply s /\ supply s = 60 /\ cbal s' = cbal s.
 Proof. exact selfdestructed_pair_dropped. Qed.
 Print Assumptions C10_selfdestructed_pair_dropped.
+
+(** ** ONE receipt with the logs of SEVERAL token contracts
+
+    [world] = per token contract (id) its pair state: [reg = false]: the contract is not
+    a registered pair; [en = false]: registered but disabled.  A [clog] is a log together
+    with the contract that emitted it.  [mhook_log tkof cf w l] looks the pair up by the
+    log's contract ([lookup_pair w (lc l)]), skips the log when there is none and converts
+    for that pair only; [mhook_logs] = the hook over a whole receipt; [mcalls] = the calls
+    of the script contract (token.transfer / token.transferFrom on any of the contracts, in
+    the scripted order); [multi_tx] = the whole Ethereum transaction.  [tkof c] is the
+    behaviour of the token contract [c]: ANY token for contracts that are not registered. *)
+
+(** a log of a contract that is not a registered pair changes no pair ... *)
+Theorem C10_log_of_unregistered_contract_changes_nothing :
+  forall (tkof : N -> token ledger) (cf : cfg) (w : gmap N (st ledger)) (l : clog),
+    lookup_pair w (lc l) = None -> mhook_log tkof cf w l = Some w.
+Proof. exact mhook_log_unregistered. Qed.
+Print Assumptions C10_log_of_unregistered_contract_changes_nothing.
+
+(** ... neither does a log of a registered but disabled pair *)
+Theorem C10_log_of_disabled_pair_changes_nothing :
+  forall (tkof : N -> token ledger) (cf : cfg) (w : gmap N (st ledger)) (l : clog) (s : st ledger),
+    w !! lc l = Some s -> en s = false -> mhook_log tkof cf w l = Some w.
+Proof. exact mhook_log_disabled. Qed.
+Print Assumptions C10_log_of_disabled_pair_changes_nothing.
+
+(** a log of the contract of pair p is processed by p's hook on p's state and changes no other pair *)
+Theorem C10_log_changes_only_its_own_pair :
+  forall (tkof : N -> token ledger) (cf : cfg) (w w' : gmap N (st ledger)) (l : clog),
+    mhook_log tkof cf w l = Some w' ->
+    (forall c, c <> lc l -> w' !! c = w !! c) /\
+    (forall s, lookup_pair w (lc l) = Some s ->
+       exists s', hook_log (tkof (lc l)) cf s (ll l) = Some s' /\ w' = <[lc l := s']> w).
+Proof.
+  exact (fun tkof cf w w' l H => conj (mhook_log_frame tkof cf w l w' H)
+                                      (fun s Hs => mhook_log_pair tkof cf w l s w' Hs H)).
+Qed.
+Print Assumptions C10_log_changes_only_its_own_pair.
+
+(** ... by exactly its amount: coin-origin pair (honest token): x tokens of the module
+    burned, x escrowed coins paid to the log's sender, nothing else *)
+Theorem C10_log_converts_exactly_its_amount_coin :
+  forall (tkof : N -> token ledger) (cf : cfg) (w : gmap N (st ledger)) (l : clog) (s : st ledger) (from : N) (x : Z),
+    lookup_pair w (lc l) = Some s -> tkof (lc l) = HT -> InvCoin s -> en s = true ->
+    ll l = tlog from MODULE x -> 0 < x -> x <= zget (lbal (tok s)) MODULE -> from <> MODULE ->
+    exists s', mhook_log tkof cf w l = Some (<[lc l := s']> w) /\ InvCoin s' /\ same_pair s s' /\
+      tok_moves s s' (fun c => - x * ind MODULE c) /\ ltotal (tok s') = ltotal (tok s) - x /\
+      coin_moves s s' (fun c => x * ind from c - x * ind MODULE c) /\ supply s' = supply s.
+Proof. exact mhook_log_exact_coin. Qed.
+Print Assumptions C10_log_converts_exactly_its_amount_coin.
+
+(** token-origin pair: x coins minted to the log's sender, the token untouched (or the
+    sdk.Int overflow panic, which reverts the transaction) *)
+Theorem C10_log_converts_exactly_its_amount_ext :
+  forall (tkof : N -> token ledger) (cf : cfg) (w : gmap N (st ledger)) (l : clog) (s : st ledger) (from : N) (x : Z),
+    lookup_pair w (lc l) = Some s -> tkof (lc l) = HT -> own_mod s = false -> en s = true -> hook_ext cf = true ->
+    ll l = tlog from MODULE x -> 0 < x -> 0 <= zget (cbal s) MODULE -> from <> MODULE ->
+    match mhook_log tkof cf w l with
+    | None => MAXU < supply s + x
+    | Some w' => exists s', w' = <[lc l := s']> w /\ same_pair s s' /\ tok s' = tok s /\
+                   coin_moves s s' (fun c => x * ind from c) /\ supply s' = supply s + x
+    end.
+Proof. exact mhook_log_exact_ext. Qed.
+Print Assumptions C10_log_converts_exactly_its_amount_ext.
+
+(** ALL log sequences, any interleaving of any contracts: the pair registered for
+    contract p ends exactly where p's own hook ends on the sub-sequence of p's logs
+    ([proj p logs]); a contract that is not a registered pair is not touched.  Every
+    per-pair theorem above therefore holds inside any receipt. *)
+Theorem C10_interleaved_logs_act_per_pair :
+  forall (tkof : N -> token ledger) (cf : cfg) (logs : list clog) (w w' : gmap N (st ledger)),
+    mhook_logs tkof cf w logs = Some w' -> forall p,
+    match lookup_pair w p with
+    | Some s => exists s', fold_left (fun acc l => match acc with None => None | Some s => hook_log (tkof p) cf s l end)
+                                     (proj p logs) (Some s) = Some s' /\ w' !! p = Some s'
+    | None => w' !! p = w !! p
+    end.
+Proof. exact mhook_logs_proj. Qed.
+Print Assumptions C10_interleaved_logs_act_per_pair.
+
+(** ... hence the result does not depend on the logs of unregistered or disabled
+    contracts: erasing them from the receipt gives the same final state *)
+Theorem C10_ignored_logs_can_be_erased :
+  forall (tkof : N -> token ledger) (cf : cfg) (logs : list clog) (w : gmap N (st ledger)),
+    mhook_logs tkof cf w logs = mhook_logs tkof cf w (keep (live w) logs).
+Proof. exact mhook_logs_erase_ignored. Qed.
+Print Assumptions C10_ignored_logs_can_be_erased.
+
+(** ... and the backing of every coin-origin pair (honest token) survives ANY sequence of
+    logs of ANY contracts, whatever they claim: totalSupply <= escrow afterwards, the gap
+    never shrinks, and is unchanged unless a log names the module account as the sender *)
+Theorem C10_any_logs_keep_coin_backing :
+  forall (tkof : N -> token ledger) (cf : cfg) (logs : list clog) (w w' : gmap N (st ledger)) (p : N) (s : st ledger),
+    mhook_logs tkof cf w logs = Some w' -> lookup_pair w p = Some s -> tkof p = HT -> InvCoin s ->
+    exists s', lookup_pair w' p = Some s' /\ InvCoin s' /\ gap s <= gap s' /\
+               (Forall (fun g => lfrom g <> MODULE) (proj p logs) -> gap s' = gap s).
+Proof. exact mhook_logs_keeps_coin_backing. Qed.
+Print Assumptions C10_any_logs_keep_coin_backing.
+
+(** what the property demands for token-origin pairs (no log-driven mint, finding K7):
+    in that semantics NO sequence of logs changes such a pair *)
+Theorem C10_any_logs_leave_ext_pairs_alone_spec :
+  forall (tkof : N -> token ledger) (cf : cfg) (logs : list clog) (w w' : gmap N (st ledger)) (p : N) (s : st ledger),
+    hook_ext cf = false -> mhook_logs tkof cf w logs = Some w' -> lookup_pair w p = Some s -> own_mod s = false ->
+    w' !! p = Some s.
+Proof. exact mhook_logs_ext_untouched_spec. Qed.
+Print Assumptions C10_any_logs_leave_ext_pairs_alone_spec.
+
+(** the whole transaction, either semantics: ANY list of transfer / transferFrom calls
+    on ANY mix of contracts in ANY order; the registered pairs have honest tokens, the
+    contracts that are not registered pairs are ARBITRARY token behaviours (they may emit
+    whatever Transfer events they like, to the module address included): every
+    registered pair of either origin is backed afterwards ... *)
+Theorem C10_multi_contract_tx_keeps_backing :
+  forall (tkof : N -> token ledger) (cf : cfg) (on : bool) (w : gmap N (st ledger)) (signer : N) (cs : list mcall)
+         (w' : gmap N (st ledger)) (r : N) (logs : list clog),
+    (forall c s, lookup_pair w c = Some s -> tkof c = HT) ->
+    Forall (fun c => mc_from c <> MODULE) cs -> WInv w ->
+    multi_tx tkof cf on w signer cs = (w', r, logs) -> WInv w'.
+Proof. exact multi_tx_keeps_backing. Qed.
+Print Assumptions C10_multi_contract_tx_keeps_backing.
+
+(** ... and an unregistered contract's denomination, registry entry and flags are
+    exactly as before: only its own token state can have moved *)
+Theorem C10_multi_contract_tx_unregistered_frame :
+  forall (tkof : N -> token ledger) (cf : cfg) (on : bool) (w : gmap N (st ledger)) (signer : N) (cs : list mcall)
+         (w' : gmap N (st ledger)) (r : N) (logs : list clog) (p : N) (s : st ledger),
+    multi_tx tkof cf on w signer cs = (w', r, logs) -> w !! p = Some s -> reg s = false ->
+    exists t1, w' !! p = Some (set_tok s t1).
+Proof. exact multi_tx_unregistered_frame. Qed.
+Print Assumptions C10_multi_contract_tx_unregistered_frame.
+
+(** refutation of a lookup that REMEMBERS the pair of the previous log's contract and
+    does not forget it on a registry miss ([memo_hook_logs]; not the code of /repo): on
+    the receipt [A; B; B] (A a registered coin-origin pair with escrow 100 = totalSupply
+    100, B an unregistered honest ERC20, both B logs Transfer(holder 1, module, 25)) B's
+    second log is converted for pair A: escrow 75 < totalSupply 100, holder 1 got 25
+    coins for 25 burned B tokens; /repo's per-log lookup leaves A alone *)
+Theorem C10_memoised_pair_lookup_refuted :
+  let '(w1, logs) := after_calls (abb_calls 1) in
+  match memo_hook_logs tk_of impl w1 None None logs with
+  | Some w2 => view w2 1 = Some (75, 100, 25, 100, 0) /\ backed w2 1 = false /\ view w2 4 = Some (0, 0, 0, 55, 25)
+  | None => False
+  end.
+Proof. exact abb_memo_refuted_coin. Qed.
+Print Assumptions C10_memoised_pair_lookup_refuted.
+
+Theorem C10_per_log_lookup_on_A_B_B :
+  let '(w1, logs) := after_calls (abb_calls 1) in
+  logs = [mkclog 1 (tlog 1 2 10); mkclog 4 (tlog 1 MODULE 25); mkclog 4 (tlog 1 MODULE 25)] /\
+  match mhook_logs tk_of impl w1 logs with
+  | Some w2 => view w2 1 = Some (100, 100, 0, 100, 0) /\ backed w2 1 = true /\ view w2 4 = Some (0, 0, 0, 80, 50)
+  | None => False
+  end.
+Proof. exact abb_faithful_coin. Qed.
+Print Assumptions C10_per_log_lookup_on_A_B_B.
+
+(** the same with a token-origin A: 25 coins minted for B's second log: coin supply 65 >
+    40 tokens held by the module; /repo: supply stays 40 *)
+Theorem C10_memoised_pair_lookup_refuted_token_origin :
+  let '(w1, logs) := after_calls (abb_calls 2) in
+  match memo_hook_logs tk_of impl w1 None None logs with
+  | Some w2 => view w2 2 = Some (0, 65, 25, 100, 40) /\ backed w2 2 = false
+  | None => False
+  end.
+Proof. exact abb_memo_refuted_ext. Qed.
+Print Assumptions C10_memoised_pair_lookup_refuted_token_origin.
+
+Theorem C10_per_log_lookup_on_A_B_B_token_origin :
+  let '(w1, logs) := after_calls (abb_calls 2) in
+  match mhook_logs tk_of impl w1 logs with
+  | Some w2 => view w2 2 = Some (0, 40, 0, 100, 40) /\ backed w2 2 = true
+  | None => False
+  end.
+Proof. exact abb_faithful_ext. Qed.
+Print Assumptions C10_per_log_lookup_on_A_B_B_token_origin.
+
+(** the neighbours [B; B; A], [A; B], [A; B; A; B]: there the remembering lookup and the
+    per-log lookup agree (and A stays backed): the witness above is minimal *)
+Theorem C10_memoised_lookup_agrees_on_neighbours :
+  Forall (fun cs => let '(w1, logs) := after_calls cs in
+                    views (memo_hook_logs tk_of impl w1 None None logs) = views (mhook_logs tk_of impl w1 logs) /\
+                    match mhook_logs tk_of impl w1 logs with Some w2 => backed w2 1 = true | None => False end)
+         [bba_calls; ab_calls; abab_calls].
+Proof. exact memo_agrees_on_neighbours. Qed.
+Print Assumptions C10_memoised_lookup_agrees_on_neighbours.
+
+(** non-vacuity: the hypotheses of C10_multi_contract_tx_keeps_backing hold for a world
+    with a coin-origin pair (1), a token-origin pair (2), a disabled pair (3) and an
+    unregistered ERC20 (4); the receipt [1; 4; 4; 1; 2; 3; 4; 2] converts exactly the
+    to-module logs of the two live pairs (10 + 5 and 7), and erasing the logs of 3 and 4
+    gives the same result *)
+Theorem C10_nonvacuous_multi_contract_tx :
+  WInv wit_world /\ (forall c s, lookup_pair wit_world c = Some s -> tk_of c = HT) /\
+  Forall (fun c => mc_from c <> MODULE) mix_calls /\
+  let '(w', r, logs) := multi_tx tk_of impl true wit_world 1 mix_calls in
+  r = OK /\ map lc logs = [1; 4; 4; 1; 2; 3; 4; 2]%N /\
+  view w' 1 = Some (85, 100, 15, 85, 0) /\ view w' 2 = Some (0, 47, 7, 100, 47) /\
+  view w' 3 = Some (30, 30, 0, 30, 9) /\ view w' 4 = Some (0, 0, 0, 80, 50) /\
+  views (mhook_logs tk_of impl (fst (after_calls mix_calls)) logs)
+    = views (mhook_logs tk_of impl (fst (after_calls mix_calls)) (keep (fun l => N.eqb (lc l) 1 || N.eqb (lc l) 2) logs)).
+Proof. exact mix_runs. Qed.
+Print Assumptions C10_nonvacuous_multi_contract_tx.
